@@ -238,7 +238,7 @@ def oracle_c08(line, itoks):
     for s in range(len(sess)):
         sub_once = [m for m in order[s] if order[s].count(m) == 1]
         ft = [m for m in first_tx[s] if m in sub_once]
-        want = [m for m in sub_once if m in ft]
+        want = sub_once[:len(ft)]        # nobody overtakes: the k messages that have gone out are the first k accepted
         if ft != want:
             return "session %d: first transmissions %s are not in submission order %s" % (s, ft, want)
     return None
